@@ -16,7 +16,7 @@ for pid in ids:
             "evidence_file": f"evidence/{pid}.json",
             "replay_cmd_template": f"./check {pid} --replay {{path}}",
             "engine": "gosym",
-            "level_claimed": {"category": p["category"], "text": p["text"], "design_ref": p.get("design_ref", "DESIGN.md §4 " + pid)},
+            "level_claimed": {"category": p["category"], "text": p["text"], "design_ref": p.get("design_ref", "DESIGN.md Part I (I.3 bounds, I.4 findings) and Part II §4 " + pid)},
             "level_note": p["note"],
             "technique": p.get("technique", "bounded symbolic execution of the real code's go/ssa form; every branch, map-key alias and assertion decided by an SMT solver (z3; cvc5 for FP arithmetic); counterexamples replayed natively"),
         }
